@@ -283,4 +283,5 @@ def run(chk, tier):
              "(it speaks of files written with or without the preamble), recorded here, not a violation")
     from . import shared
     shared.meta_order_ascending(chk, fx, "meta-order-ascending")
+    shared.open_options_passthrough(chk, fx, "open-options-passthrough")
     chk.undecided.append("equality of the re-read table with the written one on concrete values")
